@@ -462,14 +462,14 @@ fn check(prop: &str, tier: &str) -> i32 {
             rep.cov("rule", json!("stateless model checking of the real code under a controlled scheduler: every lock / try_lock / rwlock / condvar / atomic operation inside redb is a scheduling point (cfg(redb_verif) sync hooks); all schedules with at most k preemptions (iterative context bounding; forced switches at blocked or finished threads are free) are executed to completion from a frozen seed image. Reduction: a scheduling point is a preemption candidate only if its object was touched by >= 2 threads in some explored execution (set learned to a fixpoint in a warm-up at k=1), and a deviation is explored only if another thread operates on the same object later in that execution (conflict-directed pruning). Oracles per scenario on the recorded call/return history: single writer, serial order without lost updates, every read transaction = one commit point inside its invocation/response window and never moving backwards, no deadlock, no panic, page accounting, drain, backend contract; C16: per-table model, independent decoder (no page shared between tables), savepoint eligibility and restore. distinct = distinct observation vectors per scenario"));
             rep.assumptions.push("sequentially consistent scheduler: behaviours that need weak memory ordering (e.g. the Relaxed PageTracker.tracking flag) are not generated".into());
             rep.assumptions.push("at most 3 threads and k preemptions; preemption only at synchronisation operations (sufficient for safe Rust data)".into());
-            for scn in if prop == "C03" { vec!["S1", "S2", "S3", "S3g", "S8g", "S4", "S7"] } else { vec!["S5", "S5p", "S6"] } {
+            for scn in if prop == "C03" { vec!["S1", "S2", "S2g", "S3", "S3g", "S8g", "S4", "S7"] } else { vec!["S5", "S5p", "S6"] } {
                 if let Err(e) = schedrun_selftest(scn) {
                     rep.machinery_errors.push(format!("{scn}: determinism self-test: {e}"));
                 }
             }
             let mut plans = vec![];
             if prop == "C03" {
-                for scn in ["S1", "S2", "S3", "S3g", "S8g", "S7"] {
+                for scn in ["S1", "S2", "S2g", "S3", "S3g", "S8g", "S7"] {
                     plans.push(Plan { scn, cache: 0, bound: 1, reduced: true, cap: 60_000 });
                 }
                 // the close path is long (thousands of points): non-preemptive interleavings in
